@@ -107,6 +107,8 @@ CandsInst(s, sc) ==
               <<p, nm, d>> \in IdsD(s) \X sc.names \X (IdsD(s) \cup {None})} ELSE {})
     \cup (IF On(sc, "set_top")
      THEN {[op |-> "set_top", n |-> n, i |-> i] : <<n, i>> \in IdsN(s) \X (IdsI(s) \cup {None})} ELSE {})
+    \cup (IF On(sc, "set_top_dm") /\ Room(s, sc, "I")
+     THEN {[op |-> "set_top_dm", n |-> n, d |-> d, name |-> nm] : <<n, d, nm>> \in IdsN(s) \X IdsD(s) \X (sc.names \ {NoVal})} ELSE {})
     \cup (IF On(sc, "set_top_def") /\ Room(s, sc, "I")
      THEN {[op |-> "set_top_def", n |-> n, d |-> d] : <<n, d>> \in IdsN(s) \X IdsD(s)} ELSE {})
 
